@@ -105,6 +105,68 @@ class Lockstep:
             sargs[nm_s] = args[nm_r]
         if real_def.args.kwarg and spec_def.args.kwarg:
             sargs[spec_def.args.kwarg.arg] = args[real_def.args.kwarg.arg]
+        self.presolved = []
+        chunks = self.fork_chunks(real_outs)
+        if chunks is not None:
+            # many real paths: the spec runs and the solving for disjoint groups of real paths are done in forked children
+            self.presolved = self.run_forked(chunks, fname, spec_def, sargs, st0)
+            return
+        self.compare_paths(real_outs, fname, spec_def, sargs, st0)
+
+    def fork_chunks(self, real_outs):
+        import os
+        n = len(real_outs)
+        k = min(int(os.environ.get("VERIF_FORK", "6")), n // 16)
+        if k < 2:
+            return None
+        return [real_outs[i::k] for i in range(k)]
+
+    def run_forked(self, chunks, fname, spec_def, sargs, st0):
+        import json
+        import os
+        import tempfile
+        kids = []
+        for ch in chunks:
+            fd, path = tempfile.mkstemp(prefix="pyvc_chunk_")
+            os.close(fd)
+            pid = os.fork()
+            if pid == 0:
+                code = 0
+                try:
+                    self.obs = []
+                    self.compare_paths(ch, fname, spec_def, sargs, st0)
+                    out = []
+                    for ob in self.obs:
+                        st, backend, detail, dt = solve(self.ctx, ob)
+                        out.append({"name": ob.name, "st": st, "backend": backend, "detail": detail, "dt": dt, "info": ob.info, "families": ob.families,
+                                    "goal": (ob.raw or str(ob.goal))[:300] if ob.goal is not None else None,
+                                    "hyps": [str(h)[:200] for h in ob.hyps[-12:]] if st not in ("discharged", "infeasible") else []})
+                    with open(path, "w") as f:
+                        json.dump({"obs": out, "stats": self.stats, "notes": self.notes}, f)
+                except BaseException as e:      # noqa
+                    import traceback
+                    with open(path, "w") as f:
+                        json.dump({"error": traceback.format_exc()[-2000:]}, f)
+                    code = 1
+                os._exit(code)
+            kids.append((pid, path))
+        res = []
+        for pid, path in kids:
+            os.waitpid(pid, 0)
+            try:
+                doc = json.load(open(path))
+            except ValueError:
+                doc = {"error": "child wrote no result"}
+            os.remove(path)
+            if "error" in doc:
+                raise RuntimeError("forked lockstep worker failed: " + doc["error"])
+            res.extend(doc["obs"])
+            for k2, v in doc["stats"].items():
+                if k2 != "real_paths":
+                    self.stats[k2] = self.stats.get(k2, 0) + v
+        return res
+
+    def compare_paths(self, real_outs, fname, spec_def, sargs, st0):
         for ro in real_outs:
             sx = Exec(self.ctx, "spec", fname)
             sx.loop_hook = self.make_hook(ro.st.loops, fname)
